@@ -12,6 +12,11 @@ payload: {"jobs": [job...], "mode": "direct" | "fork"}
 job: {"design": [[kids, flav], ...], "ops": [[kind, arg], ...], "log": bool, "final": [mid...], "dump": bool}
   ops: ["E", tops] h.elaborate(list) | ["E1", m] h.elaborate(single) | ["P", tops] h.to_proto | ["N", tops] h.netlist
        ["NP", [kids, flav]] create a new parent module (next id) | ["ADD", m] try to add a signal to module m
+       ["ADDX", [m, variant]] try add()/setattr on module m with a (new or RE-USED) name, see ADD_VARIANTS
+* per bundle-flattening visit (strengthening round): the module right before the body (namespace, ports, bundles with
+  their member paths, connection names of the instances of design modules) and right after it (namespace, ports,
+  connection names): the input and the output of the flattening-names model Model/C07FlatNames.v
+* per add(): whether the public containers / namespace of the module are what they were before the attempt
 """
 import sys, os, json, hashlib, io as _io
 from common import main, exc_info
@@ -23,6 +28,7 @@ from hdl21.instantiable import io as hdl_io
 class Ctx:
     def __init__(self):
         self.mods = []          # id -> Module
+        self.flavs = []         # id -> flavour
         self.ids = {}           # id(Module) -> mid
         inn = h.Bundle(name="Inn")
         inn.z = h.Signal()
@@ -36,10 +42,15 @@ class Ctx:
 def build_module(ctx, kids, flav):
     """Module number len(ctx.mods): ports vss, d[2], q, bundle ports bp, bq; one instance (or array) per entry of `kids`.
     `flav` bits: 1 = first child is an InstanceArray of 2; 2 = rotate the bundle-connection styles; 4 = wide array data;
-    8 = an only child leaves its bq / q ports unconnected (NoConn); 16 = no primitive instances (a leaf is then a true leaf)."""
+    8 = an only child leaves its bq / q ports unconnected (NoConn); 16 = no primitive instances (a leaf is then a true leaf);
+    32 = a scalar PORT named `bp_x`: the member x of the bundle port bp flattens to the dodged name `bp_x_` (every parent
+         connects the scalar port as well); 64 = an INTERNAL signal named `bq_sub_z`: bq.sub.z flattens to `bq_sub_z_`,
+         a name that cannot be derived from the bundle-level io of the module; 128 = an internal signal `bp_y` AND an
+         internal signal `bp_y_`: bp.y flattens to `bp_y__`."""
     B = ctx.Bnd
     mid = len(ctx.mods)
-    m = h.Module(name=f"M{mid}")
+    # flav >> 8 = t + 1: the module is a NAMESAKE of module t (a different object with the same name)
+    m = h.Module(name=f"M{(flav >> 8) - 1}" if flav >> 8 else f"M{mid}")
     m.vss = h.Port()
     m.d = h.Input(width=2)
     m.q = h.Port()
@@ -47,6 +58,13 @@ def build_module(ctx, kids, flav):
     m.bq = B(port=True)
     m.bi = B()
     m.sx = h.Signal()
+    if flav & 32:
+        m.bp_x = h.Input()
+    if flav & 64:
+        m.bq_sub_z = h.Signal()
+    if flav & 128:
+        m.bp_y = h.Signal()
+        m.add(h.Signal(name="bp_y_"))
     if not flav & 16:
         m.r0 = h.R(r=1000)(p=m.bp.x, n=m.q)
         m.r1 = h.R(r=1000)(p=m.bq.sub.z, n=m.vss)
@@ -64,6 +82,8 @@ def build_module(ctx, kids, flav):
         else:
             bp = h.AnonymousBundle(x=m.sx, y=m.d, sub=m.bi.sub)
         conns = dict(vss=m.vss, d=m.d, bp=bp)
+        if ctx.flavs[c] & 32:
+            conns["bp_x"] = m.sx if j % 2 else m.vss
         if n == 1 and flav & 8:
             conns.update(bq=h.NoConn(), q=h.NoConn())        # replace_noconn reads the child's bundle-level io
         elif n == 1:
@@ -83,6 +103,7 @@ def build_module(ctx, kids, flav):
         m.rt = h.R(r=1000)(p=m.u0.q, n=m.vss)
     ctx.ids[id(m)] = mid
     ctx.mods.append(m)
+    ctx.flavs.append(flav)
     return m
 
 
@@ -105,6 +126,41 @@ def io_sig(m):
     return sorted(out)
 
 
+def bundle_paths(bdef):
+    """Member paths of a bundle definition in the order `flatten_bundle_inst` lists them (own signals, then every
+    sub-bundle's members with its name prepended), joined with "_" as `Path.to_name` does."""
+    out = [s.name for s in bdef.signals.values()]
+    for sub in bdef.bundles.values():
+        out += [sub.name + "_" + p for p in bundle_paths(sub.of)]
+    return out
+
+
+def design_insts(m):
+    """Instances and arrays of DESIGN modules, in the order the passes walk them: [child id, connection names]."""
+    out = []
+    for inst in list(m.instances.values()) + list(m.instarrays.values()):
+        c = Log.ctx.ids.get(id(inst.of), -1) if isinstance(inst.of, h.Module) else -1
+        if c >= 0:
+            out.append([c, list(inst.conns.keys())])
+    return out
+
+
+def flat_pre(m):
+    return dict(ns=list(m.namespace.keys()), ports=list(m.ports.keys()),
+                bundles=[[n, bool(b.port), bundle_paths(b.of)] for n, b in m.bundles.items()], insts=design_insts(m))
+
+
+def flat_post(m):
+    return dict(ns=list(m.namespace.keys()), ports=list(m.ports.keys()), insts=design_insts(m))
+
+
+def public_state(m):
+    """What a Module publicly holds: its type-based containers and namespace (names and kinds) and its io."""
+    ctrs = [[k, [[n, type(v).__name__, getattr(v, "width", None), id(v)] for n, v in getattr(m, k).items()]]
+            for k in ("ports", "signals", "instances", "instarrays", "instbundles", "bundles", "namespace")]
+    return [ctrs, m.name]
+
+
 def install_logging_elaborator():
     default = h.elab.Elaborator.default()
     subs = {}
@@ -116,8 +172,11 @@ def install_logging_elaborator():
 
         def elaborate_module(self, module):
             before = io_sig(module)
+            flat = cls.__name__ == "BundleFlattener"
+            pre = flat_pre(module) if flat else None
             r = super(sub, self).elaborate_module(module)
-            Log.entries.append([Log.entry, Log.ctx.ids.get(id(module), -1), before, io_sig(module)])
+            Log.entries.append([Log.entry, Log.ctx.ids.get(id(module), -1), before, io_sig(module),
+                                [pre, flat_post(module)] if flat else None])
             return r
 
         sub = type("Log" + cls.__name__, (cls,), dict(elaborate=classmethod(elaborate), elaborate_module=elaborate_module))
@@ -132,6 +191,47 @@ def install_logging_elaborator():
     Log.entry = -1
     h.elab.set_elaborator(h.elab.Elaborator(passes=passes))
     return [c.__name__ for c in default.passes]
+
+
+# ------------------------------------------------------------------------------------------------- add() variants
+def first_name(mod, ctr, fallback):
+    names = list(getattr(mod, ctr).keys())
+    return names[0] if names else fallback
+
+
+ADD_VARIANTS = 12
+
+
+def add_variant(ctx, mod, v):
+    """add() / setattr on `mod`.  Variant 0 uses a new name; the others RE-USE a name the module holds (before and after
+    elaboration) for an attribute of another kind, or of the same kind."""
+    if v == 0:
+        mod.add(h.Signal(name="late_addition_x"))
+    elif v == 1:
+        setattr(mod, "q", h.Signal())                       # signal over port
+    elif v == 2:
+        setattr(mod, "sx", h.Input())                       # port over signal
+    elif v == 3:
+        mod.add(h.R(r=1000)(), name="sx")                   # instance over signal
+    elif v == 4:
+        setattr(mod, "vss", ctx.Bnd())                      # bundle over port
+    elif v == 5:
+        setattr(mod, first_name(mod, "instances", "q"), h.Signal())     # signal over instance (over port on a true leaf)
+    elif v == 6:
+        mod.add(h.Signal(name="d", width=2))                # signal over port, same width, via add()
+    elif v == 7:
+        setattr(mod, "sx", h.Signal(width=3))               # same kind, same name
+    elif v == 8:
+        setattr(mod, first_name(mod, "ports", "q") if len(mod.ports) < 4 else list(mod.ports.keys())[-1], h.Signal())
+        # signal over the LAST port: after elaboration a flattened bundle port
+    elif v == 9:
+        setattr(mod, list(mod.signals.keys())[-1], h.Output())          # port over the last signal (flattened after elaboration)
+    elif v == 10:
+        mod.add(h.R(r=1000)(), name="q")                    # instance over port
+    elif v == 11:
+        mod.add(h.InstanceArray(of=h.R(r=1000), n=2), name="sx")       # instance array over signal
+    else:
+        raise ValueError(v)
 
 
 # ------------------------------------------------------------------------------------------------- history
@@ -180,13 +280,25 @@ def run_job(job):
             elif kind == "NP":
                 build_module(ctx, arg[0], arg[1])
             elif kind == "ADD":
-                ctx.mods[arg].add(h.Signal(name="late_addition"))
+                before = public_state(ctx.mods[arg])
+                try:
+                    ctx.mods[arg].add(h.Signal(name="late_addition"))
+                finally:
+                    rec["unchanged"] = public_state(ctx.mods[arg]) == before
+            elif kind == "ADDX":
+                mod = ctx.mods[arg[0]]
+                before = public_state(mod)
+                try:
+                    add_variant(ctx, mod, arg[1])
+                finally:
+                    rec["unchanged"] = public_state(mod) == before
             else:
                 raise ValueError(kind)
         except Exception as e:
-            rec = dict(ok=False, err=exc_info(e))
+            rec = dict(ok=False, err=exc_info(e), **{k: v for k, v in rec.items() if k == "unchanged"})
         rec["log"] = [[e[0], e[1]] for e in Log.entries[n0:]]
         rec["frames"] = [[e[0], e[1], e[2] == e[3]] for e in Log.entries[n0:]]
+        rec["flat"] = [[e[1]] + e[4] for e in Log.entries[n0:] if e[4] is not None]
         if dump:
             rec["io"] = Log.entries[n0:]
         return rec
